@@ -97,7 +97,7 @@ def targets(tier):
     k = 1 if tier == "quick" else 10
     return {"batch_decisions": 1000 * k, "batch_drifts": 300 * k, "stream_decisions": 3000 * k, "stream_drifts": 200 * k,
             "stream_histories_with_interrupted_run": 30 * k, "bootstrap_blocks_parsed": 400 * k, "set_reference_calls": 40 * k,
-            "stream_above_bound_steps": 1000 * k, "stream_below_bound_steps": 1000 * k}
+            "stream_above_bound_steps": 1000 * k, "stream_below_bound_steps": 1000 * k, "detector_plot_frames_checked": 200 * k}
 
 
 def run_case(case, ctx):
@@ -190,6 +190,17 @@ def run_batch(case, ctx):
                     ctx.violation("C09/batch/decision",
                                   "call %d: drift_state %r; divergence of the batch over the reference leaves %.12g, critical value from the logged "
                                   "draws %.12g (alpha %s, %d leaves) => expected %r" % (i, got, div, model.crit, kw["alpha"], model.L, exp), **base)
+                    return
+            if i % 3 == 0:
+                # the detector-level plot frame must show the reference and test counts of every node of the reference tree
+                nodes = K.nodes_preorder(model.root)
+                rc, tcn = K.fill_counts(model.root, model.ref), K.fill_counts(model.root, X)
+                names = ["f%d" % j for j in range(X.shape[1])]
+                df = det.to_plotly_dataframe(input_cols=names) if i % 2 else det.to_plotly_dataframe()
+                ctx.count("detector_plot_frames_checked")
+                if len(df) != len(nodes) or df["cell_count"].tolist() != [rc[id(nd)] for nd in nodes] or \
+                        df["count_diff"].tolist() != [tcn[id(nd)] - rc[id(nd)] for nd in nodes]:
+                    ctx.violation("C09/batch/plot_frame", "call %d: to_plotly_dataframe does not list the reference / test counts of the reference tree's nodes" % i, **base)
                     return
             if exp == "drift":
                 drifts += 1
